@@ -702,14 +702,22 @@ fn run(r: &mut Report, sc: &Scenario) {
             let Some(set) = vidsets.get(&rec.idx) else { continue };
             if let Some((failed, want)) = pending {
                 if want != set {
+                    let how = if set.is_subset(want) {
+                        "only part of them"
+                    } else if set.is_disjoint(want) {
+                        "none of them"
+                    } else {
+                        "a different set"
+                    };
                     r.violation(
-                        &format!("C12:retry-carries-different-events:{}:{}:after={}", tname, s.name(), failed.decision.class()),
+                        &format!("C12:failed-request-not-resent:{}:after={}", tname, failed.decision.class()),
                         &format!(
-                            "request #{} on {} failed ({}) with {} events, but the next request carries {} events ({} of the failed ones missing)",
+                            "request #{} on {} failed ({}) with {} events, but the next request on that endpoint carries {} ({} events, {} of the failed ones missing)",
                             failed.seq,
                             s.name(),
                             failed.decision.name(),
                             want.len(),
+                            how,
                             set.len(),
                             want.difference(set).count()
                         ),
@@ -723,7 +731,7 @@ fn run(r: &mut Report, sc: &Scenario) {
         }
         if let Some((failed, _)) = pending {
             r.violation(
-                &format!("C12:failed-request-not-resent:{}:{}:after={}", tname, s.name(), failed.decision.class()),
+                &format!("C12:failed-request-not-resent:{}:after={}", tname, failed.decision.class()),
                 &format!("request #{} on {} failed ({}) and was never sent again although flush reported success", failed.seq, s.name(), failed.decision.name()),
                 case_json(failed.brief()),
             );
@@ -778,21 +786,23 @@ fn run(r: &mut Report, sc: &Scenario) {
         let failures_on_sig = records.iter().filter(|r| r.endpoint == sig && !r.acked()).count();
         if n_acked == 0 && failures_on_sig <= 9 {
             let late_ack = records.iter().any(|rec| rec.acked() && vidsets.get(&rec.idx).map(|s| s.contains(&ev.vid)).unwrap_or(false));
+            // the last request that carried it, if any, tells what went wrong
+            let last_carrier = records.iter().filter(|rec| vidsets.get(&rec.idx).map(|s| s.contains(&ev.vid)).unwrap_or(false)).last();
             let how = if late_ack {
-                "acknowledged-only-after-flush-returned"
-            } else if n_read > 0 {
-                "only-in-unacknowledged-requests"
+                "acknowledged-only-after-flush-returned".to_string()
+            } else if let Some(c) = last_carrier {
+                format!("only-in-unacknowledged-requests:after={}", c.decision.class())
             } else {
-                "in-no-request"
+                format!("in-no-request:{}", if multi { "split-batch" } else if fault_classes(&records, sig) == "none" { "no-fault" } else { "after-faults" })
             };
             r.violation(
-                &format!("C12:event-not-acknowledged-at-flush:{}:{}:{}:{}:faults={}", how, tname, sig.name(), if multi { "split-batch" } else { "single-request" }, fault_classes(&records, sig)),
+                &format!("C12:event-not-acknowledged-at-flush:{}:{}", tname, how),
                 &format!(
                     "blocking_flush returned true but event v{} ({} bytes, {}) is {}; {} requests recorded on {}",
                     ev.vid,
                     ev.pad,
                     sig.name(),
-                    how.replace('-', " "),
+                    how.split(':').next().unwrap_or("").replace('-', " "),
                     records.iter().filter(|r| r.endpoint == sig).count(),
                     sig.name()
                 ),
